@@ -37,6 +37,7 @@ class Contract:
     key: str = ""
     variant: str = ""          # several contracts may bind the same function (e.g. stronger precondition)
     modular: bool = True       # used at call sites of other verified functions
+    call_site: bool = False    # a variant that is *the* call-site form of its key
     loops: dict = {}
     max_paths = 400
     trusted: tuple = ()
@@ -121,9 +122,10 @@ class Lemma:
 def make_engine(exclude_ident=None, modular_keys=None):
     modular = {}
     for ident, c in REGISTRY.items():
-        if c.modular and not c.variant and ident != exclude_ident:
+        if c.modular and (not c.variant or c.call_site) and ident != exclude_ident:
             if modular_keys is None or c.key in modular_keys:
-                modular[c.key] = c
+                if c.key not in modular or c.call_site:
+                    modular[c.key] = c
     eng = Engine(modular=modular)
     eng.loop_specs = dict(LOOPS)
     return eng
